@@ -91,6 +91,12 @@ class FInt:
     def __rmod__(self, o):
         return FInt(bv(o)).__mod__(self)
 
+    def __divmod__(self, o):
+        return self.__floordiv__(o), self.__mod__(o)
+
+    def __rdivmod__(self, o):
+        return self.__rfloordiv__(o), self.__rmod__(o)
+
     def _cmp(self, o, iop, fop):
         if isinstance(o, (FFloat, float)):
             return SB(fop(self.tofp(), fpv(o)))
